@@ -207,6 +207,18 @@ fn one<S: SetL>(a: &std::collections::HashMap<String, String>) -> bool {
                 }
             }
         }
+        if a.get("forkdrop").map(|s| s == "1").unwrap_or(false) {
+            // a forked child inherits the set and drops its copy (a worker leaving the scope, unwinding, ...): the parent's set
+            // must go on reporting everything - the child's destructor may release the child's descriptors, nothing more
+            let pid = unsafe { libc::fork() };
+            if pid == 0 {
+                let copy = unsafe { std::ptr::read(&set) };
+                drop(copy);
+                unsafe { libc::_exit(0) };
+            }
+            let mut st = 0;
+            unsafe { libc::waitpid(pid, &mut st, 0) };
+        }
         let phased = mode == "phased";
         let early_closed: usize = (0..m).filter(|i| plans[*i].1 && !late[*i]).count();
         let early_msgs: usize = (0..m).filter(|i| !late[*i]).map(|i| plans[i].0.len()).sum();
